@@ -515,6 +515,19 @@ func profileFor(prop string) *Profile {
 		p.SameBlock = 0.7
 		p.PBoundary = 0.4
 		p.PSlash = 0.1
+	case "C12":
+		p.Inflation = 1
+		p.PSlash, p.PEvidence, p.PDowntime = 0.12, 0.04, 0.03
+		p.Huge = 0.45
+		p.W["claim"] = 16
+		p.W["donate"] = 6
+		p.MaxBlocks = 40
+	case "C11":
+		p.Inflation = 0 // minting disabled: the expected net supply is closed-form
+		p.W["n_delegate"], p.W["n_undelegate"], p.W["n_redelegate"] = 10, 10, 4
+		p.W["donate"] = 6
+		p.W["unjail"] = 5
+		p.PSlash, p.PEvidence, p.PDowntime = 0.1, 0.04, 0.04
 	case "C10":
 		p.W["n_delegate"], p.W["n_undelegate"], p.W["n_redelegate"] = 14, 14, 5
 		p.W["unjail"] = 6
